@@ -398,10 +398,12 @@ OtherOf(dt) == CASE dt.t \in {"double", "int"} -> Num(5) [] dt.t = "enum" -> Num
 NoLim == [kind |-> "none"]
 Par(wire, dt, ro, const, lim, hooks, drv) ==
   [kind |-> "param", wire |-> wire, dt |-> dt, ro |-> ro, const |-> const, init |-> InitOf(dt),
-   lim |-> lim, hooks |-> hooks, drv |-> drv, ret |-> OtherOf(dt), islimit |-> FALSE]
-LimPar(wire, dt, init) ==
+   lim |-> lim, hooks |-> hooks, drv |-> drv, ret |-> OtherOf(dt), islimit |-> FALSE, level |-> "X"]
+\* level: the class of the hierarchy that defines the limit parameter(s) (only gamma reads it)
+ParL(wire, dt, ro, const, lim, hooks, drv, lv) == [Par(wire, dt, ro, const, lim, hooks, drv) EXCEPT !.level = lv]
+LimPar(wire, dt, init, lv) ==
   [kind |-> "param", wire |-> wire, dt |-> dt, ro |-> FALSE, const |-> Null, init |-> init,
-   lim |-> NoLim, hooks |-> <<>>, drv |-> "absent", ret |-> Null, islimit |-> TRUE]
+   lim |-> NoLim, hooks |-> <<>>, drv |-> "absent", ret |-> Null, islimit |-> TRUE, level |-> lv]
 Cmd(wire, arg, ret) == [kind |-> "cmd", wire |-> wire, arg |-> arg, ret |-> ret]
 
 (* A: access flags and export modes x datatype, commands with an argument of the datatype *)
@@ -417,40 +419,64 @@ ShapeA(d) == LET dt == DTname[d] IN
           cr |-> Cmd("_cr", NoDt, Num(3))]]
 (* B: driver scripts *)
 ShapeB(d, drv) == [m |-> [pa |-> Par("_pa", DTname[d], FALSE, Null, NoLim, <<>>, drv)]]
-(* C: dynamic limits and check hooks along the class chain D(erived) - L(imit mixin) - B(ase) *)
+(* C: dynamic limits and check hooks along the class hierarchy.  The generated classes are *)
+(*   D(erived) - X (plain mixin) - M(iddle) - B(ase, defines the parameter)   (MRO order);   *)
+(* hooks sit at D / M / B, the limit parameters at level lv \in {"X", "M", "D", "B"}:        *)
+(*   X: plain mixin next to the hooked base        M, D: hooks in ancestors, limits in a     *)
+(*   descendant      B: limits in the ancestor, hooks in descendants, or (h5) in the SAME    *)
+(*   class as a hook (which then calls checkLimits itself, as documented).                   *)
+(* The chain the property talks about is the same in every layout: hooks in MRO order, the   *)
+(* limit check at the class of the limit parameters, a hook returning true ends the chain.   *)
 HookSets == [h0 |-> <<[at |-> "LIMIT"]>>,
              h1 |-> <<[at |-> "D", raise |-> <<Num(5)>>, stop |-> <<>>], [at |-> "LIMIT"],
                       [at |-> "B", raise |-> <<Num(3)>>, stop |-> <<>>]>>,
              h2 |-> <<[at |-> "D", raise |-> <<>>, stop |-> <<Num(3), Num(8)>>], [at |-> "LIMIT"],
-                      [at |-> "B", raise |-> <<Num(3), Num(0)>>, stop |-> <<>>]>>]
-ShapeC(d, lk, h, drv) == LET dt == DTname[d] IN
+                      [at |-> "B", raise |-> <<Num(3), Num(0)>>, stop |-> <<>>]>>,
+             \* limits in the most derived class: nothing further down can switch the limit check off
+             h3 |-> <<[at |-> "LIMIT"], [at |-> "M", raise |-> <<Num(5)>>, stop |-> <<Num(3), Num(8)>>],
+                      [at |-> "B", raise |-> <<Num(3), Num(0)>>, stop |-> <<>>]>>,
+             \* limits in the base class, hooks in two descendants
+             h4 |-> <<[at |-> "D", raise |-> <<Num(5)>>, stop |-> <<>>],
+                      [at |-> "M", raise |-> <<>>, stop |-> <<Num(3), Num(8)>>], [at |-> "LIMIT"]>>,
+             \* limits and a hook in the same (base) class
+             h5 |-> <<[at |-> "D", raise |-> <<Num(5)>>, stop |-> <<>>],
+                      [at |-> "B", raise |-> <<Num(3)>>, stop |-> <<Num(8)>>], [at |-> "LIMIT"]>>]
+HooksFor == [X |-> {"h0", "h1", "h2"}, M |-> {"h0", "h1", "h2"}, D |-> {"h0", "h3"}, B |-> {"h0", "h4", "h5"}]
+ShapeC(d, lk, h, drv, lv) == LET dt == DTname[d] IN
   IF lk = "minmax"
-  THEN [m |-> [target |-> Par("target", dt, FALSE, Null, [kind |-> "minmax", lo |-> "target_min", hi |-> "target_max"], HookSets[h], drv),
-               target_min |-> LimPar("target_min", dt, Num(dt.lo)),
-               target_max |-> LimPar("target_max", dt, Num(dt.hi))]]
+  THEN [m |-> [target |-> ParL("target", dt, FALSE, Null, [kind |-> "minmax", lo |-> "target_min", hi |-> "target_max"], HookSets[h], drv, lv),
+               target_min |-> LimPar("target_min", dt, Num(dt.lo), lv),
+               target_max |-> LimPar("target_max", dt, Num(dt.hi), lv)]]
   ELSE IF lk = "limits"
-  THEN [m |-> [pa |-> Par("_pa", dt, FALSE, Null, [kind |-> "limits", both |-> "pa_limits"], HookSets[h], drv),
-               pa_limits |-> LimPar("_pa_limits", DTp(dt), List(<<Num(dt.lo), Num(dt.hi)>>))]]
-  ELSE [m |-> [target |-> Par("target", dt, FALSE, Null, [kind |-> "minmax", lo |-> "", hi |-> "target_max"], HookSets[h], drv),
-               target_max |-> LimPar("target_max", dt, Num(dt.hi))]]
+  THEN [m |-> [pa |-> ParL("_pa", dt, FALSE, Null, [kind |-> "limits", both |-> "pa_limits"], HookSets[h], drv, lv),
+               pa_limits |-> LimPar("_pa_limits", DTp(dt), List(<<Num(dt.lo), Num(dt.hi)>>), lv)]]
+  ELSE [m |-> [target |-> ParL("target", dt, FALSE, Null, [kind |-> "minmax", lo |-> "", hi |-> "target_max"], HookSets[h], drv, lv),
+               target_max |-> LimPar("target_max", dt, Num(dt.hi), lv)]]
 (* D: a hook on a struct sees the merged value *)
 ShapeD == [m |-> [pa |-> Par("_pa", DTst, FALSE, Null, NoLim,
                              <<[at |-> "D", raise |-> <<St(Num(5), Num(2))>>, stop |-> <<>>]>>, "none")]]
 
-(* shapes are named by tuples: <<"A", d>>, <<"B", d, drv>>, <<"C", d, limitkind, hookset, drv>>, <<"D">> *)
+(* shapes are named by tuples: <<"A", d>>, <<"B", d, drv>>, <<"C", d, limitkind, hookset, drv, level>>, <<"D">> *)
 IdsOf(fam) ==
   CASE fam = "A" -> {<<"A", d>> : d \in DOMAIN DTname}
     [] fam = "A1" -> {<<"A", d>> : d \in {"e", "s", "a"}}
     [] fam = "B" -> {<<"B", d, drv>> : d \in DOMAIN DTname, drv \in {"same", "fixed", "absent"}}
-    [] fam = "C1" -> {<<"C", "f", lk, h, "none">> : lk \in {"minmax", "limits"}, h \in DOMAIN HookSets}
-                     \cup {<<"C", "i", "minmax", "h1", "same">>, <<"C", "i", "limits", "h0", "fixed">>, <<"D">>}
-    [] fam = "C2" -> {<<"C", d, lk, h, drv>> : d \in {"f", "i"}, lk \in {"minmax", "limits", "max"},
-                                              h \in DOMAIN HookSets, drv \in {"none", "fixed"}}
+    [] fam = "C1" -> {<<"C", "f", "minmax", "h0", "none", "X">>, <<"C", "f", "minmax", "h1", "none", "X">>,
+                      <<"C", "f", "limits", "h2", "none", "X">>,
+                      <<"C", "f", "minmax", "h2", "none", "M">>, <<"C", "f", "limits", "h1", "none", "M">>,
+                      <<"C", "i", "minmax", "h1", "same", "M">>,
+                      <<"C", "f", "minmax", "h3", "none", "D">>, <<"C", "f", "limits", "h3", "none", "D">>,
+                      <<"C", "f", "minmax", "h4", "none", "B">>, <<"C", "f", "limits", "h5", "none", "B">>,
+                      <<"C", "f", "minmax", "h5", "none", "B">>,
+                      <<"C", "i", "limits", "h0", "fixed", "X">>, <<"D">>}
+    [] fam = "C2" -> UNION {{<<"C", d, lk, h, drv, lv>> : d \in {"f", "i"}, lk \in {"minmax", "limits", "max"},
+                                                       h \in HooksFor[lv], drv \in {"none", "fixed"}}
+                            : lv \in DOMAIN HooksFor}
 ShapeIds(fams) == UNION {IdsOf(f) : f \in fams}
 ShapeOf(id) ==
   CASE id[1] = "A" -> ShapeA(id[2])
     [] id[1] = "B" -> ShapeB(id[2], id[3])
-    [] id[1] = "C" -> ShapeC(id[2], id[3], id[4], id[5])
+    [] id[1] = "C" -> ShapeC(id[2], id[3], id[4], id[5], id[6])
     [] id[1] = "D" -> ShapeD
 
 Req(act, mod, name, payload) == [act |-> act, mod |-> mod, name |-> name, payload |-> payload]
